@@ -1460,20 +1460,19 @@ impl Machine {
                 Instruction::Delay(dst, src, time) => {
                     let i = self.get_stack(src as i64);
                     let t = self.get_stack(time as i64);
-                    let delaysize_i =
-                        unsafe { self.delaysizes_pos_stack.last().unwrap_unchecked() };
+                    // `delay_sizes` holds one entry per `Delay` instruction of this function, in
+                    // bytecode order: the entry of this delay is its ordinal among them.
+                    let delaysize_i = self.get_fnproto(func_i).bytecodes[..pcounter]
+                        .iter()
+                        .filter(|inst| matches!(inst, Instruction::Delay(..)))
+                        .count();
                     #[cfg(mimium_verif)]
                     crate::verif_hooks::check(
-                        *delaysize_i < self.get_fnproto(func_i).delay_sizes.len(),
+                        delaysize_i < self.get_fnproto(func_i).delay_sizes.len(),
                         "vm delay_sizes index",
                     );
 
-                    let size_in_samples = unsafe {
-                        *self
-                            .get_fnproto(func_i)
-                            .delay_sizes
-                            .get_unchecked(*delaysize_i)
-                    };
+                    let size_in_samples = self.get_fnproto(func_i).delay_sizes[delaysize_i];
                     #[cfg(mimium_verif)]
                     self.verif_record_state(
                         crate::verif_hooks::Kind::Delay,
